@@ -29,7 +29,7 @@ extern "C" void vf_thread_0() {
     if (i % 3 == 2) { auto r2 = s->emplace(k); vf_check(!r2.second && *r2.first == k, 1); }      // re-insert: not a new element
   }
   vf_check(s->size() == cnt, 2);
-  vf_check(s->empty() == (cnt == 0), 2);
+  vf_check(s->empty() == (cnt == 0), 5);
   uint64_t seen[2] = {0, 0}; uint64_t it = 0;
   for (auto& v : *s) { vf_check(v < 64 && !((seen[0] >> v) & 1), 3); seen[0] |= 1ull << (v & 63); it++; if (it > VF_N + 2) break; }
   vf_check(it == cnt && seen[0] == ref[0], 3);
